@@ -91,10 +91,13 @@ pub fn gen_game(s: &mut Stream, cfg: &GenCfg) -> Generated {
         };
     }
     let fam = if cfg.families {
-        s.weighted(&[10, 2, 1, 1, 1, 1, 1, 1, 1])
+        s.weighted(&[20, 4, 2, 2, 2, 2, 2, 2, 2, 1])
     } else {
         0
     };
+    if fam == 9 {
+        return Generated { tree: gen_many_singles(s, cfg), family: "many-singles" };
+    }
     match fam {
         0 => Generated {
             tree: gen_obs(s, cfg),
@@ -198,6 +201,8 @@ pub enum Wt {
     Extreme,
     /// ratios far beyond the precision of a double, subnormal weights (sums never overflow)
     Wild,
+    /// a distribution that is normalised except for a relative error of 1e-15..1e-9
+    NearOne,
 }
 
 pub fn pick_wt(s: &mut Stream, cfg: &GenCfg) -> Wt {
@@ -210,12 +215,13 @@ pub fn pick_wt(s: &mut Stream, cfg: &GenCfg) -> Wt {
     if cfg.generic {
         return Wt::Real;
     }
-    match s.weighted(&[8, 4, 8, 2, 1]) {
+    match s.weighted(&[16, 8, 16, 4, 2, 3]) {
         0 => Wt::Int,
         1 => Wt::Dyadic,
         2 => Wt::Real,
         3 => Wt::Extreme,
-        _ => Wt::Wild,
+        4 => Wt::Wild,
+        _ => Wt::NearOne,
     }
 }
 
@@ -249,6 +255,12 @@ pub fn weights(s: &mut Stream, wt: Wt, n: usize) -> Vec<f64> {
             }
         }
         Wt::Real => (0..n).map(|_| 0.05 + s.unit_generic()).collect(),
+        Wt::NearOne => {
+            let raw: Vec<f64> = (0..n).map(|_| 0.05 + s.unit_generic()).collect();
+            let tot: f64 = raw.iter().sum();
+            let off = 1.0 + [1e-10, -3e-10, 4e-10, 1e-12, -1e-15, 9e-10][s.below(6)];
+            raw.iter().map(|x| x / tot * off).collect()
+        }
         Wt::Wild => {
             // absolute magnitudes; the largest is 1e200, so a sum of a few cannot overflow, and
             // the smallest are subnormal
@@ -305,7 +317,34 @@ fn gen_obs(s: &mut Stream, cfg: &GenCfg) -> T {
         chance_pool: Vec::new(),
         singles: Default::default(),
     };
-    g.node(0, [Vec::new(), Vec::new()])
+    let share = g.s.chance(64);
+    let pick = g.s.u8() as usize;
+    let mut tree = g.node(0, [Vec::new(), Vec::new()]);
+    if share {
+        // infoset names are per player: a forced move of one player may carry the name of a
+        // decision of the other
+        let info = Info::of(&tree);
+        for p in 0..2 {
+            let singles: Vec<String> = info.singles(p).map(|(k, _)| k.clone()).collect();
+            let others: Vec<String> = info.multi(1 - p).map(|(k, _)| k.clone()).filter(|k| !info.infosets[p].contains_key(k)).collect();
+            if !singles.is_empty() && !others.is_empty() {
+                let from = singles[pick % singles.len()].clone();
+                let to = others[(pick / 7) % others.len()].clone();
+                fn rename(node: &mut T, p: usize, from: &str, to: &str) {
+                    if let T::Player(q, name, _) = node {
+                        if *q == p && name == from {
+                            *name = to.to_string();
+                        }
+                    }
+                    for c in node.children_mut() {
+                        rename(c, p, from, to);
+                    }
+                }
+                rename(&mut tree, p, &from, &to);
+            }
+        }
+    }
+    tree
 }
 
 impl ObsGen<'_, '_> {
@@ -400,7 +439,7 @@ impl ObsGen<'_, '_> {
                             2 => 4,
                             3 => 1,
                             // rare wide infosets (counts around powers of two)
-                            _ => [5, 8, 9, 10, 16, 17][self.s.below(6)],
+                            _ => [5, 8, 9, 10, 16, 17, 32, 33, 40, 65][self.s.below(10)],
                         };
                         let set = self.s.below(3);
                         let off = self.s.below(2);
@@ -435,7 +474,7 @@ impl ObsGen<'_, '_> {
 
 fn gen_matrix(s: &mut Stream, cfg: &GenCfg, degenerate: bool) -> T {
     let pay = pick_pay(s, cfg);
-    let size = |s: &mut Stream| if s.chance(24) { [5, 8, 9, 10, 12, 16, 17][s.below(7)] } else { 2 + s.below(3) };
+    let size = |s: &mut Stream| if s.chance(24) { [5, 8, 9, 10, 12, 16, 17, 32, 33, 40, 65][s.below(11)] } else { 2 + s.below(3) };
     let n = size(s);
     let m = size(s);
     let mut mat: Vec<Vec<f64>> = (0..n).map(|_| (0..m).map(|_| payoff(s, pay)).collect()).collect();
@@ -469,6 +508,18 @@ fn gen_matrix(s: &mut Stream, cfg: &GenCfg, degenerate: bool) -> T {
             })
             .collect(),
     )
+}
+
+/// a player passes 63, 64, 65, 127, 128 or 129 forced moves (each its own single-action infoset)
+/// before a little matrix game: counts around the word sizes of packed flags
+fn gen_many_singles(s: &mut Stream, cfg: &GenCfg) -> T {
+    let n = [63usize, 64, 65, 127, 128, 129][s.below(6)];
+    let p = s.below(2);
+    let mut node = gen_matrix(s, cfg, false);
+    for k in (0..n).rev() {
+        node = T::Player(p, format!("f{}", k), vec![("on".into(), node)]);
+    }
+    node
 }
 
 fn gen_chain(s: &mut Stream, cfg: &GenCfg) -> T {
@@ -511,10 +562,10 @@ fn gen_shared_wide(s: &mut Stream, cfg: &GenCfg) -> T {
     if cfg.max_nodes >= 100_000 || (cfg.max_nodes >= 400 && s.chance(40)) {
         // many deals (hundreds of infosets for the second mover) or a wide first mover
         if s.bool() {
-            k = [40, 130, 150, 260, 300][s.below(5)];
+            k = if cfg.max_nodes >= 100_000 && s.chance(32) { [4100, 5000][s.below(2)] } else { [40, 130, 150, 260, 300][s.below(5)] };
             a = 2;
         } else {
-            a = [9, 10, 13, 17][s.below(4)];
+            a = [9, 10, 13, 17, 33, 40][s.below(6)];
         }
     }
     let p = s.below(2);
